@@ -28,7 +28,7 @@ Definition conv_defined (c : conv) (t : vtype) : bool :=
   | CPkt => vtype_eqb t TPkt
   | COptIp4 => match t with TVoid | TIp4 => true | _ => false end
   | COptU64 | COptU32 | COptU16 | COptU8 => vtype_eqb t TVoid || is_integral t
-  | COptBuf => match t with TVoid | TStr => true | _ => false end
+  | COptBuf => vtype_eqb t TVoid || is_string_coercible t
   | CAsRef => vtype_eqb t TStr
   end.
 
